@@ -15,13 +15,14 @@ REGISTRY = collections.OrderedDict()
 
 class LoopSpec:
     def __init__(self, header=None, vars=None, invariants=None, havoc_fields=(), ghosts=None,
-                 ghost_update=None, exit_checks=False):
+                 ghost_update=None, ghost_init=None, exit_checks=False):
         self.header = header
         self.vars = vars or {}
         self.invariants = invariants or []
         self.havoc_fields = list(havoc_fields)
         self.ghosts = ghosts or {}
         self.ghost_update = ghost_update
+        self.ghost_init = ghost_init
         self.exit_checks = exit_checks
 
 
@@ -56,14 +57,16 @@ class Contract:
         self.engine_opts = {}
         self.clause_props = {}
         self.notes = []
-        self.may_raise_ = []       # exception classes callers must consider (with optional cond)
+        self.may_raise_ = []
+        self.force_result = False
+        self.replay_prepare = None       # exception classes callers must consider (with optional cond)
         self.consts_ = []          # (name, fn(repo) -> (bool, detail))
         self.lemmas_ = []          # (name, fn() -> z3 Bool to prove valid, props)
 
     # -- DSL -------------------------------------------------------------
-    def params(self, **tys):
-        self.param_types.update(tys)
-        return self
+    def params(c, **tys):
+        c.param_types.update(tys)
+        return c
 
     def returns(self, ty):
         self.ret = ty
@@ -227,6 +230,12 @@ class ClauseEnv:
             return view(self._it, self._entry[name], self._heap)
         if name in self._locals:
             return view(self._it, self._locals[name], self._heap)
+        gv = getattr(self._fr, 'ghost_values', None)
+        if gv is not None and name in gv:
+            return gv[name]
+        wit = self._extra.get('__witness__')
+        if wit is not None:
+            return wit(name)
         raise AttributeError('clause refers to unknown name %r' % name)
 
     @property
@@ -236,6 +245,14 @@ class ClauseEnv:
     @property
     def old(self):
         return ClauseEnv(self._it, self._fr, {}, getattr(self._it, 'entry_heap', {}), self._entry, {})
+
+    def with_heap(self, hv):
+        h = dict(self._heap)
+        h.update(hv)
+        return ClauseEnv(self._it, self._fr, self._extra, h, self._entry, self._locals)
+
+    def obj(self, ref):
+        return ObjView(self._it, ref, self._heap)
 
     def has_local(self, name):
         return name in self._locals
@@ -304,9 +321,11 @@ class VEngine(Engine):
         con = it.contract
         if con is None or fr is not it.entry_frame and not getattr(fr, 'site_scope', False):
             return
+        text = ast.unparse(node.func)
+        it.ctx.call_log.append((text, [view(it, a, it.ctx.heap) for a in args],
+                                {k: view(it, a, it.ctx.heap) for k, a in kwargs.items()}, (args, kwargs, node)))
         if not con.sites:
             return
-        text = ast.unparse(node.func)
         for sp in con.sites:
             if text == sp.pattern or text.endswith('.' + sp.pattern):
                 self.site_hits[sp.name] = self.site_hits.get(sp.name, 0) + 1
@@ -339,7 +358,15 @@ class VEngine(Engine):
         saved_entry_heap = getattr(it, 'entry_heap', {})
         if out == 'return':
             res = con.ret.fresh(ctx, 'ret!' + con.qualname.split('.')[-1]) if con.ret is not None else NONE
-            env = _CallEnv(it, bound, {'result': res}, old_heap)
+            if con.force_result:
+                res = ctx.force(res, 'result-kind:' + con.qualname)
+            wit = {}
+
+            def witness(name):
+                if name not in wit:
+                    wit[name] = ctx.fresh_const('wit!' + name, z3.IntSort())
+                return wit[name]
+            env = _CallEnv(it, bound, {'result': res, '__witness__': witness}, old_heap)
             for name, fn, _ in con.ensures_:
                 ctx.assume(fn(env))
             return res
